@@ -2,6 +2,7 @@ package sim
 
 import (
 	"fmt"
+	"path/filepath"
 
 	"verifharness/proto"
 	"verifharness/simrt"
@@ -100,7 +101,7 @@ func SimC04(c *CheckCtx, i int, r *Rng) error {
 		}
 	}
 	eps := drawEntrypoints(r, m)
-	args := proto.GenArgs{Entrypoint: spell(r, m, eps), Base: base, All: r.P(0.8), Globals: drawGlobals(r, names)}
+	args := proto.GenArgs{Entrypoint: spell(r, m, eps), Base: base, All: r.P(0.8), Force: r.P(0.3), Globals: drawGlobals(r, names)}
 	if real {
 		args.Globals = nil
 	}
@@ -156,6 +157,21 @@ func SimC04(c *CheckCtx, i int, r *Rng) error {
 		{Kind: "warm", Run: mkRun(simrt.Schedule{Default: "desc"}, args.Entrypoint, true)},
 		{Kind: "run", Run: mkRun(asc, args.Entrypoint, false)},
 	}})
+	// a run hit by one I/O error on an output file, then the same run again: eventually the same files
+	if !real {
+		var g string
+		for _, gs := range gens {
+			if isScripted(&gs) {
+				g = gs.Name
+			}
+		}
+		pi := Pick(r, eps)
+		tmp := filepath.Join(m.Pkgs[pi].Dir, base+"."+g+".go.tmp")
+		faulty := mkRun(asc, args.Entrypoint, true)
+		faulty.Faults = []proto.Fault{{ExecSeq: -1, Kind: Pick(r, []string{"os.open", "os.write"}), Path: tmp, Phase: "exec", Nth: 0, Do: Pick(r, []string{"errno:EISDIR", "errno:ENOSPC", "errno:EACCES"})}}
+		again := mkRun(asc, args.Entrypoint, false) // not forced: a failed run must not have been recorded as done
+		sc.Variants = append(sc.Variants, Variant{Name: "eventual:io-fault", Ops: []Op{{Kind: "run", Run: faulty}, {Kind: "run", Run: again}}})
+	}
 	// ... and that has generated OTHER packages of the module before (in a scratch copy of the world)
 	allEps := make([]int, len(m.Pkgs))
 	for k := range allEps {
